@@ -279,11 +279,15 @@ type cfgShape struct {
 	ticket  int // >0: install a session ticket of that length (needs cache)
 	fakePsk int // >0: install a FakePreSharedKeyExtension with that identity length (needs cache)
 	rseed   uint64
+	gbytes  []byte // if 10 bytes: what ApplyPreset's GREASE seed read gets
 }
 
 func shapeOf(in KV) cfgShape {
 	s := cfgShape{sni: string(in.Bytes("sni")), omitPsk: in["omitpsk"] != "0", quic: in["quic"] == "1", cache: in["cache"] == "1", rseed: in.U64("rseed")}
 	s.alpn = strList(parseHexList(in["alpn"]))
+	if v, ok := in["gbytes"]; ok {
+		s.gbytes = unhex(v)
+	}
 	if v, ok := in["ticket"]; ok {
 		fmt.Sscanf(v, "%d", &s.ticket)
 	}
@@ -294,7 +298,11 @@ func shapeOf(in KV) cfgShape {
 }
 
 func (s cfgShape) config() *tls.Config {
+	// a fresh deterministic Config.Rand stream per case (client random, GREASE seed, session id, keys)
 	c := &tls.Config{ServerName: s.sni, NextProtos: s.alpn, OmitEmptyPsk: s.omitPsk, Rand: NewRng(s.rseed), InsecureSkipVerify: true}
+	if len(s.gbytes) == 10 {
+		c.Rand = &greaseRand{r: NewRng(s.rseed), g: s.gbytes}
+	}
 	if s.cache || s.ticket > 0 || s.fakePsk > 0 {
 		c.ClientSessionCache = tls.NewLRUClientSessionCache(4)
 	}
@@ -379,8 +387,24 @@ func buildWith(id tls.ClientHelloID, spec *tls.ClientHelloSpec, s cfgShape) (uc 
 
 func genU16List(r *Rng, n int, grease bool) string { return genU16s(r, n, grease) }
 
+// boundaryBias: every 4th generated extension with a variable part gets a size around 254/255/256 or
+// 510/511/512 (all inner vec8/vec16 prefixes and the extension_data length cross their carries).
+var boundaryBias = true
+
+func isBoundKind(kind int) bool {
+	for _, k := range boundKinds {
+		if k == kind {
+			return true
+		}
+	}
+	return false
+}
+
 func genValidExt(r *Rng, kind int) string {
 	small := func() int { return 1 + r.Intn(6) }
+	if boundaryBias && isBoundKind(kind) && kind != 0 && kind != 27 && r.Intn(4) == 0 {
+		return genBoundaryExt(r, kind, Pick(r, boundSizes), r.Intn(2))
+	}
 	switch kind {
 	case 0:
 		return "sni|-" // filled from Config.ServerName
